@@ -12,7 +12,7 @@
 
 //! Restore from the archive to the filesystem.
 
-use std::collections::HashMap;
+use std::collections::{HashMap, HashSet};
 use std::fs::{File, create_dir_all};
 use std::io::{self, Write};
 use std::path::{Path, PathBuf};
@@ -99,8 +99,25 @@ pub async fn restore(
         monitor.clone(),
     );
     let mut deferrals = Vec::new();
+    // Symlinks restored so far. Nothing may be restored below one of them: the listing of an
+    // interrupted version can hold a symlink from the new band followed by entries from an
+    // older band in which that path was a directory, and writing those would follow the
+    // link out of the destination.
+    let mut restored_symlinks: HashSet<String> = HashSet::new();
     while let Some(entry) = stitch.next().await {
         task.set_name(format!("Restore {}", entry.apath));
+        if !restored_symlinks.is_empty()
+            && entry
+                .apath
+                .match_indices('/')
+                .skip(1)
+                .any(|(i, _)| restored_symlinks.contains(&entry.apath[..i]))
+        {
+            monitor.error(Error::InvalidMetadata {
+                details: format!("{:?} is below a symlink in the same listing", entry.apath()),
+            });
+            continue;
+        }
         let path = destination.join(&entry.apath[1..]);
         match entry.kind() {
             Kind::Dir => {
@@ -137,6 +154,7 @@ pub async fn restore(
                     monitor.error(err);
                     continue;
                 }
+                restored_symlinks.insert(entry.apath.to_string());
             }
             Kind::Unknown => {
                 monitor.error(Error::InvalidMetadata {
